@@ -18,7 +18,7 @@ var (
 
 // Cache models the cache settings for a given step
 type Cache struct {
-	Disabled bool     `yaml:",omitempty"`
+	Disabled bool     `yaml:"disabled,omitempty"`
 	Name     string   `yaml:"name,omitempty"`
 	Paths    []string `yaml:"paths,omitempty"`
 	Size     string   `yaml:"size,omitempty"`
@@ -29,7 +29,9 @@ type Cache struct {
 // MarshalJSON marshals the step to JSON. Special handling is needed because
 // yaml.v3 has "inline" but encoding/json has no concept of it.
 func (c *Cache) MarshalJSON() ([]byte, error) {
-	if c.Disabled {
+	// A cache that is only disabled is written as false. One that was written
+	// as a mapping with disabled: true next to other settings keeps them all.
+	if c.Disabled && c.Name == "" && len(c.Paths) == 0 && c.Size == "" && len(c.RemainingFields) == 0 {
 		return json.Marshal(false)
 	}
 	return inlineFriendlyMarshalJSON(c)
